@@ -1843,6 +1843,10 @@ End Proofs.
 Notation inv cfg := (inv_gen cfg true).
 Notation winv cfg := (inv_gen cfg false).
 
+(* establishing lemma: both invariants hold in the initial state (preservation: step_good_all / C20_invariant_step, run_no_danger) *)
+Lemma inv_init_both cfg : inv cfg init /\ winv cfg init.
+Proof. split; apply inv_init. Qed.
+
 (* ------------------------------------------------------------------ round 7: the buffer step of a pooled allocate *)
 (* MemPool::pvNewBlock (MemPool.h:516-535), GENERATED with the buffer allocation as a step that may throw
    (pvNewBuffer_fails) and every store into pool memory as an effect on [mem]: STRONG exception guarantee - when the
